@@ -613,3 +613,6 @@ V('C14', 'recovery-keeps-going-on-a-bad-point', KEY, "            if not _ssl.EC
   'UNDECIDED:C14.Z2', scope='CECKey.recover')
 V('C16', 'duplicate-input-rule-removed', CORE, "        if txin.prevout in vin_outpoints:\n            raise CheckTransactionError(\"CheckTransaction() : duplicate inputs\")\n", "", ['C16.Z2', 'C16.T1'], scope='CheckTransaction')
 V('C06', 'script-size-limit-removed', EVAL, "    if len(scriptIn) > MAX_SCRIPT_SIZE:\n        raise EvalScriptError('script too large; got %d bytes; maximum %d bytes' %\n                                        (len(scriptIn), MAX_SCRIPT_SIZE),\n                              stack=stack,\n                              scriptIn=scriptIn,\n                              txTo=txTo,\n                              inIdx=inIdx,\n                              flags=flags)\n", "", ['C06.Z2', 'C06.L1'], scope='_EvalScript')
+V('C04', 'digest-forms-share-one-value', SCRIPT, "SIGVERSION_BASE = 0", "SIGVERSION_BASE = 1", 'C04.A0')
+V('C01', 'element-limit-one-less', SER, "MAX_SIZE = 0x02000000", "MAX_SIZE = 0x01ffffff", 'C01.K1')
+V('C18', 'address-time-version-moved', NET, "CADDR_TIME_VERSION = 31402", "CADDR_TIME_VERSION = 31403", 'C18.C1')
